@@ -12,7 +12,7 @@ import gc
 from ..lib.term import Con, Some
 from ..lib.universe import Built, from_py, iter_nodes, tree_size, universe_from_json, universe_to_json
 from .c15 import mk_origin, obs_origin_struct
-from .c16 import gen_tree, make_universe, opts_term, ptab_term, py_opts, reset_pyoak, to_sval
+from .c16 import DIGEST_SIZE, gen_tree, make_universe, opts_term, ptab_term, py_opts, reset_pyoak, to_sval
 
 ID = "C04"
 ENTRY = "C04"
@@ -38,6 +38,7 @@ ASSUMPTIONS = [
 ]
 
 TWIN_OFFSET = 1000
+DROP_TWINS = 999  # in the retained list: the twin copies are dropped before reading back
 SPECIAL_STR = ["\U0001F600", "a b", "x\x00y", "ÿ", "퟿", " lead", "trail ", "", "line\nbreak", "tab\t", "'q'",
                '"dq"', "\\", "\x7f", "\x85", "null", "~", "1", "1.5", "true", "- a", "a: b", "#c", "\U00010000\U0010FFFF", "é雪"]
 SPECIAL_FLOAT = [-0.0, 1e-7, 1.7976931348623157e308, 2.2250738585072014e-308, 0.1, 5e-324, 1e17, 123456789.125]
@@ -47,13 +48,16 @@ def spice(tree, rng):
     """replace some string / float property values by hard ones (consistently for shared subtrees)"""
     memo = {}
 
-    def val(v):
+    def val(v, in_tuple=False):
         if v.name == "VStr" and rng.random() < 0.35:
-            return Con("VStr", rng.choice(SPECIAL_STR))
+            # inside tuples the digest preimage uses repr(): the shared model of repr (Model/Node.v str_repr) covers ASCII
+            # and printable non-ASCII only, so unprintable non-ASCII code points stay out of tuples
+            pool = [x for x in SPECIAL_STR if all(ch.isprintable() or ord(ch) < 128 for ch in x)] if in_tuple else SPECIAL_STR
+            return Con("VStr", rng.choice(pool))
         if v.name == "VFloat" and rng.random() < 0.5:
             return Con("VFloat", repr(rng.choice(SPECIAL_FLOAT)))
         if v.name == "VTuple":
-            return Con("VTuple", [val(x) for x in v.args[0]])
+            return Con("VTuple", [val(x, True) for x in v.args[0]])
         return v
 
     def go(t):
@@ -98,6 +102,8 @@ def gen_cases(rng, tier):
                     else:
                         rest = [a for a in addrs if a != root]
                         retained = rng.sample(rest, k=min(len(rest), rng.randint(1, 3))) if rest else []
+                    if copies and rng.random() < 0.4:
+                        retained = [*retained, DROP_TWINS]
                     given = rng.choice([None, Some(opts_term(sort=True)), Some(opts_term(sidx=True)),
                                         Some(opts_term(sort=True, sidx=True)), Some(opts_term(sort=False))])
                     fresh_sources = rng.random() < 0.35
@@ -147,7 +153,7 @@ def impl(t, case):
 
     u = universe_from_json(case["opts"]["universe"])
     u.load()
-    config.ID_DIGEST_SIZE = case.get("digest_size") or 8
+    config.ID_DIGEST_SIZE = DIGEST_SIZE[0] = case.get("digest_size") or 8
     reset_pyoak()
     try:
         tree, copies, retained, given, fresh_sources, fmt = t.args[2], t.args[3], t.args[4], t.args[5], t.args[6].name == "T", t.args[7].name
@@ -176,7 +182,9 @@ def impl(t, case):
         all_src = O.Source.all_as_dict() if fresh_sources else None
         # liveness: keep the retained objects only
         addr_by_obj = {id(obj): a for a, obj in b.objs.items()}
-        keep = [b.objs[a] for a in retained]
+        keep = [b.objs[a] for a in retained if a != DROP_TWINS]
+        if DROP_TWINS in retained:
+            twins.clear()
         del d, root
         b.objs.clear()
         b.addr_of.clear()
